@@ -25,11 +25,87 @@ RULE = ('a case = generated graph history (as C07) + pack time + gc + mode; mode
 ASSUMPTIONS = ['crash model: prefix of the recorded operations across the five files in issue order; renames/removes atomic',
                'thread schedules (packer with concurrent committers/readers) are NOT explored: no deterministic scheduler was '
                'built; concurrency is covered only as far as commits before/after the pack go']
-BUDGET = {'quick': {'examples': 400, 'workers': 8},
+BUDGET = {'quick': {'examples': 1200, 'workers': 8},
           'thorough': {'examples': 2500, 'workers': 16}}
 
 
+def thread_strategy():
+    from vlib import threadprog
+    roles = st.sampled_from(['committer', 'committer', 'reader'])
+    return st.fixed_dictionaries({
+        'mode': st.just('threads'),
+        'programs': st.lists(roles.flatmap(lambda r: st.tuples(st.just(r), threadprog.program_strategy(r)).map(list)),
+                             min_size=1, max_size=3),
+        'schedule': threadprog.SCHEDULE,
+        'second_packer': st.sampled_from([False, False, True]),
+        'pack_back': st.sampled_from([0.0, 0.0, 0.5, 1.5]),
+        'lines': st.booleans(),
+    })
+
+
+def execute_threads(case):
+    """one packer with committers and readers under the deterministic scheduler"""
+    import sys
+    from ZODB.FileStorage import FileStorage
+    from ZODB.FileStorage.fspack import FileStoragePacker
+    from ZODB.POSException import ConflictError
+    from vlib import threadprog
+    out = Outcome()
+    clock.install()
+    clock.reset()
+    d = newdir()
+    tr = threadprog.ThreadRun('fs', d, prehistory=2)
+    try:
+        threads = [('packer', tr.packer('packer', case['pack_back']))]
+        if case['second_packer']:
+            threads.append(('packer2', tr.packer('packer2', case['pack_back'])))
+        for i, (role, prog) in enumerate(case['programs']):
+            threads.append(('%s%d' % (role[0], i), tr.body('%s%d' % (role[0], i), prog, role)))
+        FS = sys.modules['ZODB.FileStorage.FileStorage'].FileStorage
+        funcs = [FS.pack, FileStoragePacker.pack, FileStoragePacker.copyOne, FileStoragePacker.copyRest,
+                 FS.tpc_finish, FS._finish_finish, FS.tpc_vote] if case.get('lines') else ()
+        s = tr.run(threads, case['schedule'], funcs)
+        out.evals = max(1, s.steps)
+        out.label('threads')
+        ev = [k for _, _, k, _ in tr.events]
+        if 'pack-ok' in ev:
+            out.label('threads-pack-completed')
+        if ev.count('pack-refused'):
+            out.label('threads-second-pack-refused')
+        pack_ticks = [t for t, _, k, _ in tr.events if k in ('pack-start', 'pack-ok')]
+        during = [1 for t, _, k, d_ in tr.events if k == 'commit-ok' and d_[0] and pack_ticks and min(pack_ticks) < t < max(pack_ticks)]
+        if during:
+            out.label('threads-commit-returned-during-pack')
+        if not threadprog.thread_problems(s, out, PROPERTY, allowed=(ConflictError,)):
+            threadprog.history_oracle(tr, out, PROPERTY)
+            if not out.failures:
+                threadprog.snapshot_oracle(tr, out, PROPERTY)
+            if not out.failures:
+                # the same after reopening the packed file
+                returned = [(d_[0], d_[1]) for _, _, k, d_ in tr.events if k == 'commit-ok' and d_[0]]
+                path = tr.db.storage._file_name
+                tr.db.close()
+                fs = FileStorage(path, read_only=True)
+                try:
+                    have = {t.tid for t in fs.iterator()}
+                finally:
+                    fs.close()
+                for tid, wrote in returned:
+                    if tid not in have:
+                        out.fail((PROPERTY, 'threads', 'returned-commit-missing-after-reopen'),
+                                 'the commit %r (%r) returned but is not in the reopened file' % (tid, wrote))
+                        break
+        out.nontrivial = bool(during)
+    finally:
+        tr.close()
+    return out
+
+
 def strategy(tier):
+    return st.one_of(_enum_strategy(tier), _enum_strategy(tier), thread_strategy())
+
+
+def _enum_strategy(tier):
     base = c07_pack.strategy(tier)
 
     def fix(case):
@@ -40,6 +116,7 @@ def strategy(tier):
         'pack_k': st.sampled_from([0, 0, 1, 1, 2, 3, 5]),
         'gc': st.booleans(),
         'mode': st.sampled_from(['crash', 'crash', 'fault']),
+        'prepack': st.booleans(),
         'cuts': st.lists(st.integers(1, 5000), min_size=1, max_size=3),
         'after': st.lists(st.tuples(st.just('gtxn'), st.lists(st.tuples(st.just('upd'), st.integers(0, 9)).map(list), min_size=1, max_size=2)).map(list), max_size=2),
     })
@@ -97,12 +174,15 @@ def execute(case):
 
 
 def _execute(case):
+    if case.get('mode') == 'threads':
+        return execute_threads(case)
     from ZODB.FileStorage import FileStorage
     from ZODB.serialize import referencesf
     out = Outcome()
     out.evals = 0
     clock.install()
-    locks.install()
+    from vlib import sched
+    sched.install()
     A, B, rec, da = build(case, out)
     nt = []
     try:
@@ -114,6 +194,17 @@ def _execute(case):
         gc = bool(case['gc'])
         datafs = os.path.join(da, 'Data.fs')
         caps = c07_pack.programs.CAPS['fs']
+        if case.get('prepack') and case['mode'] == 'crash' and len(tids) >= 3:
+            # an earlier pack first: the recorded pack then finds a left-over Data.fs.old
+            try:
+                tpre = A.pack_time(max(1, len(tids) // 2))
+                A.storage.pack(tpre, referencesf, gc=False)
+                stop = max(stop, c07_pack.tid_of_time(tpre))     # the region protected after both packs
+                if os.path.exists(datafs + '.old'):
+                    out.label('second-pack-with-old-file')
+            except Exception as e:
+                if type(e).__name__ not in ('FileStorageError', 'PackError', 'AssertionError'):
+                    raise
         if case['mode'] == 'crash':
             # a second pack while this one runs must be refused: ask for it from inside the packer
             # (the documented packer= hook), deterministically "concurrent"
